@@ -12,7 +12,7 @@
    PreviousPriv with the current name, and "" means "no previous"); witness in
    NetworkLemmas.Example.acquire_reaches_target_refuted. *)
 From Coq Require Import Permutation.
-From Scrapli Require Import Bytes BytesLemmas Regex PlatformTypes Generated Channel Network NetworkAbs NetworkLemmas.
+From Scrapli Require Import Bytes BytesLemmas Regex PlatformTypes Generated Channel Network NetworkAbs NetworkLemmas NetworkTwins.
 
 (* the tree path exists, starts at a, ends at b, has no repeated level, moves along tree edges *)
 Theorem C04_tree_path : forall ls a b,
@@ -52,8 +52,69 @@ Theorem C04_unknown_target : forall net prompt_of d cached target,
   acquire_priv_abs net prompt_of d cached target = AErrPriv d.
 Proof. exact acquire_unknown_target. Qed.
 
+(* ---- twins — Privilege navigation on trees where several levels share one prompt.
+   Property theorems only; proofs in theories/NetworkTwins.v.
+
+   C04_acquire assumes [prompts_identify]: every prompt names exactly one level.  That excludes the
+   platforms with "twin" levels (cisco_iosxr configuration / configuration-exclusive, juniper_junos
+   configuration / -exclusive / -private) and, with them, the disambiguation code of
+   processAcquirePriv (cached level first, then the target, then the first candidate).  Here the
+   hypothesis is [prompts_identify_upto_twins] (a prompt may be recognised as several levels, but
+   then they are leaves of the tree) and the cached d.CurrentPriv is tracked by [cache_ok] (it names
+   the device's true mode, or that mode is unambiguous); the conclusion re-establishes [cache_ok],
+   so the statement composes over a session's acquires ([C04_acquire_many_twins]).
+   Side condition found by the proof: "UNKNOWN", which the driver caches after every escalate /
+   de-escalate, must not be a candidate of another level's prompt ([unknown_not_twin]; implied by
+   "no level is called UNKNOWN"); witness NetworkTwins.Example.unknown_twin_refuted.  [cache_ok] is
+   needed as well: witness NetworkTwins.Example.cache_ok_needed. *)
+Theorem C04_acquire_twins : forall net prompt_of d cached target,
+  tree_wf (n_levels net) = true -> ~ In [] (names (n_levels net)) ->
+  orders_ok net -> prompts_identify_upto_twins net prompt_of -> unknown_not_twin net prompt_of ->
+  cmds_ok (n_levels net) ->
+  In (d_mode d) (names (n_levels net)) -> In target (names (n_levels net)) ->
+  cache_ok net prompt_of d cached ->
+  exists p d', tree_path (n_levels net) (d_mode d) target = Some p /\
+               acquire_priv_abs net prompt_of d cached target = AOk d' target /\
+               d_mode d' = target /\ d_log d' = d_log d ++ path_cmds (n_levels net) p /\
+               cache_ok net prompt_of d' target.
+Proof. exact acquire_reaches_target_twins. Qed.
+
+(* the side condition in its everyday form *)
+Theorem C04_unknown_not_level : forall net prompt_of,
+  tree_wf (n_levels net) = true -> orders_ok net ->
+  ~ In net_unknown_priv (names (n_levels net)) -> unknown_not_twin net prompt_of.
+Proof. exact unknown_not_level_not_twin. Qed.
+
+(* C04_acquire is the twin-free special case *)
+Theorem C04_acquire_from_twins : forall net prompt_of d cached target,
+  tree_wf (n_levels net) = true -> ~ In [] (names (n_levels net)) -> orders_ok net ->
+  prompts_identify net prompt_of -> cmds_ok (n_levels net) ->
+  In (d_mode d) (names (n_levels net)) -> In target (names (n_levels net)) ->
+  exists p d', tree_path (n_levels net) (d_mode d) target = Some p /\
+    acquire_priv_abs net prompt_of d cached target = AOk d' target /\
+    d_mode d' = target /\ d_log d' = d_log d ++ path_cmds (n_levels net) p.
+Proof. exact acquire_reaches_target_partial_from_twins. Qed.
+
+(* a session: any sequence of acquires from an accurate (or irrelevant) cache *)
+Theorem C04_acquire_many_twins : forall net prompt_of,
+  tree_wf (n_levels net) = true -> ~ In [] (names (n_levels net)) ->
+  orders_ok net -> prompts_identify_upto_twins net prompt_of -> unknown_not_twin net prompt_of ->
+  cmds_ok (n_levels net) ->
+  forall targets d cached,
+    In (d_mode d) (names (n_levels net)) -> (forall t, In t targets -> In t (names (n_levels net))) ->
+    cache_ok net prompt_of d cached ->
+    exists d' c', acquire_many net prompt_of d cached targets = Some (d', c') /\
+                  d_mode d' = last targets (d_mode d) /\
+                  d_log d' = d_log d ++ paths_cmds (n_levels net) (d_mode d) targets /\
+                  cache_ok net prompt_of d' c'.
+Proof. exact acquire_many_twins. Qed.
+
 Print Assumptions C04_tree_path.
 Print Assumptions C04_tree_path_unique.
 Print Assumptions C04_dfs_order_irrelevant.
 Print Assumptions C04_acquire.
 Print Assumptions C04_unknown_target.
+Print Assumptions C04_acquire_twins.
+Print Assumptions C04_unknown_not_level.
+Print Assumptions C04_acquire_from_twins.
+Print Assumptions C04_acquire_many_twins.
